@@ -21,6 +21,8 @@ import json, os, shutil
 from harness.gen import sim
 from harness.gen import c04_records as R
 from harness.gen.c09_hist import gen_case, build_inputs, gen_interleaved_case, build_interleaved
+from harness.gen.c09_file import gen_file_case, build_file
+from harness.gen import c09_fileops as F
 
 RULE = ("one history of 6 CLI runs (phase with PS, phase with HP, re-phase of the phased file with the other tag "
         "(optionally a sample subset), unphase, phase again, phase with the phased VCF as only phase input) over a "
@@ -494,22 +496,262 @@ def phase_q(h, case, V, P):
     return {"name": "Q", "out": out, "trace": trace, "tag": case["tag"], "in": V, "targets": None}
 
 
+# ------------------------------------------------------------------------------------------------
+# file-level stream (in-process): whole multi-sample / multi-chromosome files through the real reader, the real
+# PhasedInputReader and the real PhasedVcfWriter.write (both values of remove_existing_phasing)
+# ------------------------------------------------------------------------------------------------
+
+def run_file_case(ctx, case, n):
+    import random
+    from whatshap.vcf import VcfReader
+    d = os.path.join(ctx.workdir(), f"case{n}")
+    shutil.rmtree(d, ignore_errors=True)
+    b = build_file(case, d)
+    os_ = case["only_snvs"]
+    rng = random.Random(case["gen_seed"] ^ 0xF11E)
+    h = Hist(ctx, case, d, opts={"distrust": False, "include_hom": False, "only_snvs": os_})
+    for k in ("enc_mode", "pq", "n_contigs", "n_samples", "n_files"):
+        ctx.dist("file_" + k, case[k])
+
+    # ---- 1. the reader on every phase file, whole file, all samples at once
+    parsed, lean_tables, real_res = [], [], []
+    reqs = []
+    for P in b["P"]:
+        _, psamples, recs = R.load_vcf(P)
+        parsed.append((psamples, recs))
+        reqs.append(F.readfile_request(recs, psamples, os_))
+    answers = ctx.model.ask_many(reqs)
+    all_ok = True
+    for P, (psamples, recs), ans in zip(b["P"], parsed, answers):
+        res = F.real_read_file(P, os_)
+        ctx.evaluated()
+        real_res.append(res)
+        lean_tables.append(ans)
+        kind = res.get("error", "ok")
+        ctx.dist("file_reader_outcome", kind.split(":")[0])
+        if "error" in res or "error" in ans:
+            all_ok = False
+            if res.get("error") != ans.get("error"):
+                ctx.disagree("c09.readfile (outcome)", case, res.get("error", "ok"), ans.get("error", "ok"))
+            continue
+        if res["ploidy"] != ans["ploidy"]:
+            ctx.disagree("c09.readfile (ploidy)", case, res["ploidy"], ans["ploidy"])
+        it, lt = F.canon_real_tables(res), F.canon_lean_tables(ans)
+        if it != lt:
+            diff = next(((x, y) for x, y in zip(it, lt) if x != y), (len(it), len(lt)))
+            ctx.disagree("c09.readfile", case, str(diff[0])[:600], str(diff[1])[:600])
+        # independent decoder, all samples: what the reader stores is what the record says (multi-sample view)
+        acc = dict()
+        for (chrom, keep), (_, _, rows) in zip(F.accepted_indices(recs, os_), res["tables"]):
+            if len(keep) != len(rows):
+                ctx.disagree("reader keeps other records than the skipping rules say", case, [r[0] for r in rows], [recs[i]["pos"] for i in keep])
+                continue
+            for i, (pos, ref, alt, calls) in zip(keep, rows):
+                for si, (g, p, q) in enumerate(calls):
+                    hp, gp = indep_decode(recs[i], si)
+                    want = gp if gp is not None else hp
+                    got = None if p is None else (p[0], tuple(p[1]))
+                    if want != "bad" and got != want:
+                        ctx.disagree("VcfReader(phases=True) vs independent decoder (multi-sample)", case, str(got), str(want))
+        if any(p is not None for _, _, rows in res["tables"] for _, _, _, calls in rows for _, p, _ in calls):
+            ctx.nontrivial(("file-read", case["gen_seed"], P[-6:]))
+
+    # ---- 2. PhasedInputReader: the phase files as pseudo reads for the variants of V
+    try:
+        with VcfReader(b["V"], only_snvs=os_) as rv:
+            vtables = list(rv)
+    except Exception as e:  # noqa: BLE001 - an unsorted variant file: nothing to ask the PhasedInputReader for
+        ctx.dist("file_V_unreadable", type(e).__name__)
+        vtables = []
+    queries, qmeta = [], []
+    for t in vtables:
+        for s in b["samples"]:
+            gts = t.genotypes_of(s)
+            inv = [v for v, g in zip(t.variants, gts) if not g.is_none() and not g.is_homozygous()]
+            if rng.random() < 0.25:
+                inv = [v for v in t.variants if rng.random() < 0.7]           # any variant list is a legal argument
+            queries.append((t.chromosome, inv, s))
+            qmeta.append([[v.position, v.reference_allele, v.alternative_allele] for v in inv])
+    real_pi, ids = F.real_phase_input(b["P"], os_, queries)
+    ctx.evaluated()
+    if isinstance(real_pi, dict):
+        if all_ok:
+            ctx.disagree("PhasedInputReader.read_vcfs raises although every file reads", case, real_pi, "ok")
+    elif not all_ok:
+        ctx.disagree("PhasedInputReader.read_vcfs accepts files the reader rejects", case, "ok", [a.get("error") for a in lean_tables])
+    else:
+        files = [F.ptables(ans, recs, psamples, os_) for ans, (psamples, recs) in zip(lean_tables, parsed)]
+        reqs = [{"op": "c09.phaseinput", "files": files, "nPaths": 0, "chrom": chrom, "sample": s, "sampleId": r["sample_id"],
+                 "inputVariants": iv} for (chrom, _, s), iv, r in zip(queries, qmeta, real_pi)]
+        n_reads = 0
+        for (chrom, _, s), r, ans in zip(queries, real_pi, ctx.model.ask_many(reqs)):
+            if "reads" not in ans:
+                ctx.disagree("c09.phaseinput", case, "ok", ans); continue
+            lean = sorted([x["name"], x["source_id"], x["sample_id"], x["variants"]] for x in ans["reads"])
+            n_reads += len(lean)
+            if lean != r["reads"] or sorted(ans["source_ids"]) != r["source_ids"]:
+                ctx.disagree("c09.phaseinput", case, {"chrom": chrom, "sample": s, "reads": r["reads"][:4], "src": r["source_ids"]},
+                             {"reads": lean[:4], "src": ans["source_ids"]})
+            if not r["sorted"]:
+                h.fail(f"PhasedInputReader.read({chrom}, {s}) returns a read set that is not sorted by first position", "readset-unsorted", "P")
+            # direct statement per file (the property's reading of a phase input): the reads of file i are its phase sets
+            # restricted to the shared heterozygous variants
+        ctx.dist("file_pseudo_reads", min(n_reads, 40) // 4 * 4)
+        if n_reads:
+            ctx.nontrivial(("file-pi", case["gen_seed"]))
+
+    # ---- 3. the writer on the first phase file (it carries phase information of every kind already)
+    psamples, recs = parsed[0]
+    targets = [s for s in psamples if not case["sample_subset"] or rng.random() < 0.6] or psamples[:1]
+    rng.shuffle(targets)
+    chroms = sorted({r["chrom"] for r in recs})
+    chroms_on = [c for c in chroms if not case["chrom_subset"] or rng.random() < 0.5]
+    plan = F.gen_plan(rng, recs, psamples, targets, chroms_on)
+    out = os.path.join(d, "W.vcf")
+    rm, tag = case["rm"], case["tag"]
+    err = F.real_write(b["P"][0], out, tag, os_, rm, plan)
+    ctx.evaluated()
+    ctx.dist("file_writer", ("rm" if rm else "keep") + "/" + tag + ("/err" if err else ""))
+    cfg = {"tag": tag, "onlySnvs": os_, "mav": False, "repaired": True, "samples": psamples, "targets": []}
+    blocks = R.chrom_blocks(recs)
+    if rm:
+        # chromosome names may repeat (split contig): the model's cfgOf is keyed by name, and so is the plan
+        req = {"op": "c09.writefile", "cfg": cfg,
+               "groups": [{"chrom": c, "targets": ts, "records": [R.model_record(recs[i], psamples) for i in idxs]}
+                          for (c, ts), (_, idxs) in zip(plan, blocks)]}
+        ans = ctx.model.ask_many([req])[0]
+        mrecs = [(r, None) for g in ans for r in g["records"]] if isinstance(ans, list) else None
+        merr = None
+        if isinstance(ans, list):
+            xs = ctx.model.ask_many([{"op": "c09.writex", "rm": True, "cfg": dict(cfg, targets=ts),
+                                      "records": [R.model_record(recs[i], psamples) for i in idxs]} for (c, ts), (_, idxs) in zip(plan, blocks)])
+            merr = any(o["err"] for x in xs for o in x)
+            if [o["record"] for x in xs for o in x] != [r for r, _ in mrecs]:
+                ctx.disagree("c09.writefile vs c09.writex(rm=true)", case, "writeFile", "writeChromX true")
+    else:
+        xs = ctx.model.ask_many([{"op": "c09.writex", "rm": False, "cfg": dict(cfg, targets=ts),
+                                  "records": [R.model_record(recs[i], psamples) for i in idxs]} for (c, ts), (_, idxs) in zip(plan, blocks)])
+        mrecs = [(o["record"], None) for x in xs for o in x]
+        merr = any(o["err"] for x in xs for o in x)
+    if err or merr:
+        if bool(err) != bool(merr):
+            ctx.disagree("writer KeyError (record without GT)", case, err, merr)
+    elif mrecs is None:
+        ctx.disagree("c09.writefile", case, "ok", ans)
+    else:
+        try:
+            _, _, rout = R.load_vcf(out)
+        except (OSError, ValueError) as e:
+            if not rm and tag == "HP":
+                # a target call that keeps its old phased GT gets no HP value at all when HP is new in the record: NUL byte
+                # (F21 again); not reachable from a command line (haplotagphase always writes PS)
+                ctx.observe("remove_existing_phasing=False with tag HP: output unparsable (HP never set for a call that keeps its phase)")
+            else:
+                h.fail(f"output of PhasedVcfWriter.write cannot be parsed by htslib ({e})", "output-unparsable", "W")
+            rout = None
+        if rout is not None:
+            if len(rout) != len(mrecs):
+                ctx.disagree("c09.write* (record count)", case, len(rout), len(mrecs))
+            else:
+                for i, (ro, (mr, _)) in enumerate(zip(rout, mrecs)):
+                    diff = F.record_diff(R.model_record(ro, psamples), mr)
+                    if diff:
+                        ctx.disagree("c09.writefile" if rm else "c09.writex(rm=false)", case,
+                                     {"record": i, "pos": ro["pos"], "impl": diff[0]}, {"model": diff[1]})
+                        break
+            if all(recs[a]["pos"] <= recs[b]["pos"] for _, idxs in blocks for a, b in zip(idxs, idxs[1:])):
+                # (an unsorted variant file never reaches the writer: `whatshap phase` reads it first and raises VcfNotSortedError)
+                file_writer_oracle(h, case, recs, rout, psamples, targets, plan, rm, tag, os_)
+    ctx.sample({"case": case, "fails": h.fails})
+    if not os.environ.get("C09_KEEP"):
+        shutil.rmtree(d, ignore_errors=True)
+
+
+def file_writer_oracle(h, case, rin, rout, samples, targets, plan, rm, tag, only_snvs):
+    """the property on the writer's output for arbitrary super-reads / components: with removal, a target call decodes to
+    exactly what this call of write() had to state (nothing on a chromosome written with empty super-reads: there the
+    record must be unchanged); without removal (haplotagphase) a call that is not phased anew keeps what it had"""
+    elig = eligible_first(rin, only_snvs)
+    by_rec = {}
+    for (chrom, ts), (_, idxs) in zip(plan, R.chrom_blocks(rin)):
+        for i in idxs:
+            by_rec[i] = ts
+    n_written = 0
+    for i, (ri, ro) in enumerate(zip(rin, rout)):
+        ts = {t["name"]: t for t in by_rec[i]}
+        for si, s in enumerate(samples):
+            before, after = indep_decode(ri, si), indep_decode(ro, si)
+            if s not in ts and "PS" not in ri["format"] and "PS" in ro["format"] and before[1] is not None and after[1] is not None:
+                # a phased GT without a PS key is block 0 for the reader (`call.get("PS", 0)`); once the record has the key
+                # (written for a target) the same call reads as block None: the call itself is unchanged
+                before = (before[0], (None, before[1][1]))
+            if s not in ts:
+                if before != after or ri["calls"][si].get("GT") != ro["calls"][si].get("GT"):
+                    h.fail(f"sample {s} {ri['chrom']}:{ri['pos'] + 1}: not a target of this write() call, but its phase information changed "
+                           f"from {before} to {after}", "non-target-changed", "W")
+                    return
+                continue
+            t = ts[s]
+            want = None
+            if i in elig:
+                comps = dict(map(tuple, t["comps"]))
+                ph = {}
+                for (p0, a), (_, b2) in zip(t["sr0"], t["sr1"]):
+                    if a in (0, 1) and b2 in (0, 1):
+                        ph[p0] = (a, b2)
+                p = ri["pos"]
+                if p in comps and p in ph and ph[p][0] != ph[p][1]:
+                    want = (comps[p] + 1, ph[p])
+            hp, gp = after
+            got = gp if gp is not None else hp
+            if want is not None:
+                n_written += 1
+                if not rm and tag == "HP":
+                    # without removal the genotype is not sorted, and `_set_HP` relies on a sorted genotype (F4b): not reachable
+                    # from a command line (haplotagphase, the only caller with remove_existing_phasing=False, writes PS)
+                    if got != want:
+                        h.ctx.observe("remove_existing_phasing=False with tag HP on an unsorted genotype decodes to the opposite phase")
+                elif got != want or (hp is not None and gp is not None):
+                    if rm or hp is None or gp is None:
+                        h.fail(f"sample {s} {ri['chrom']}:{ri['pos'] + 1}: write() had to state {want}, the call decodes to HP={hp} GT/PS={gp} "
+                               f"(tag {tag}, remove_existing_phasing={rm})", "decode-differs", "W")
+                        return
+            elif rm and (hp is not None or gp is not None):
+                h.fail(f"sample {s} {ri['chrom']}:{ri['pos'] + 1}: decodable phase HP={hp} GT/PS={gp} was not written by this write() call "
+                       f"(tag {tag})", "stale-phase", "W")
+                return
+    if n_written:
+        h.ctx.nontrivial(("file-write", case["gen_seed"]))
+
+
 def run(ctx):
     cases = [c for _, c in ctx.corpus()]
     if ctx.replay:
         cases = [json.load(open(ctx.replay))["case"]]
     n = 0
     for c in cases:
-        (run_interleaved if c.get("kind") == "interleaved" else run_case)(ctx, c, n); n += 1
+        {"interleaved": run_interleaved, "file": run_file_case}.get(c.get("kind"), run_case)(ctx, c, n); n += 1
     if ctx.replay:
         return
-    for _ in range((8 if ctx.quick else 60) * ctx.scale):
+    streams = os.environ.get("C09_STREAMS", "hist,inter,table,file").split(",")     # development aid: run a subset of the streams
+    for _ in range((8 if ctx.quick else 60) * ctx.scale if "hist" in streams else 0):
         run_case(ctx, gen_case(ctx.rng, scale=1 if ctx.quick else 2), n); n += 1
     # generator-written phase inputs with interleaved / nested phase sets: run Q + in-process pseudo reads
-    for _ in range((6 if ctx.quick else 60) * ctx.scale):
+    for _ in range((6 if ctx.quick else 60) * ctx.scale if "inter" in streams else 0):
         run_interleaved(ctx, gen_interleaved_case(ctx.rng), n); n += 1
-    for _ in range((30 if ctx.quick else 600) * ctx.scale):
+    for _ in range((30 if ctx.quick else 600) * ctx.scale if "table" in streams else 0):
         run_interleaved(ctx, gen_interleaved_case(ctx.rng, cli=False), n); n += 1
+    for _ in range((80 if ctx.quick else 2500) * ctx.scale if "file" in streams else 0):
+        run_file_case(ctx, gen_file_case(ctx.rng, ctx.quick), n); n += 1
+    if os.environ.get("C09_DEBUG"):                     # development aid: all disagreements, not only the first
+        import collections
+        cnt = collections.Counter(op for op, _, _, _ in ctx.disagreements)
+        print("C09_DEBUG", dict(cnt))
+        seen = set()
+        for op, case, impl, model in ctx.disagreements:
+            if op not in seen:
+                seen.add(op)
+                print("C09_DEBUG", op, "seed", case.get("gen_seed"), "\n   impl:", str(impl)[:700], "\n  model:", str(model)[:700])
     try:
         os.rmdir(ctx.workdir())
     except OSError:
